@@ -358,7 +358,7 @@ theorem mem_of_getElem? {α : Type} {l : List α} {i : Nat} {a : α} (h : l[i]? 
 
 theorem inv_step (st : St) (hinv : Inv st) (op : Op) (hwf : op.wf = true) : Inv (step st op) := by
   cases op with
-  | dataset ty =>
+  | dataset ty dargs =>
     simp only [step]
     apply inv_extend st hinv
     · exact back_append_one st hinv _ (by intro s hs; cases hs)
